@@ -1,23 +1,23 @@
-\* C09 batch tier, quick (see ScenQuick in MC_Reclaim.tla)
+\* C09 batch tier, thorough (see ScenThorough in MC_Reclaim.tla)
 SPECIFICATION Spec
 CONSTANTS
   ChargeNoMetricInMaxUR = TRUE
   ReqPolicySysUsage = FALSE
   Caps = {6}
-  ThrStep = 50
+  ThrStep = 25
   MinThr = 50
-  Pcts <- PctsQuick
-  PolC = {"", "maxUsageRequest"}
-  PolM = {"usage", "request", "maxUsageRequest"}
+  Pcts <- PctsAll
+  PolC = {"", "usage", "maxUsageRequest"}
+  PolM = {"", "usage", "request", "maxUsageRequest"}
   Ages <- AgesAll
   MaxSys = 2
   MaxKRes = 1
-  MaxAnno = 1
+  MaxAnno = 2
   MaxApp = 1
   MaxReq = 2
-  MaxUse = 2
+  MaxUse = 3
   MaxDang = 1
-  Scenarios <- ScenQuick
+  Scenarios <- ScenThorough
 INVARIANT ImplOK
 PROPERTY Mono
 PROPERTY RaiseIsRaise
